@@ -508,3 +508,83 @@ Section fold.
       rewrite <- app_assoc in IH. apply IH. rewrite fmap_app. rewrite <- app_assoc. done.
   Qed.
 End fold.
+
+(* ------------------------------------------------------------------ the item fold, blackbox-free modules *)
+Section items.
+  Context (k : rctx) (DD : gset string).
+  Hypothesis Htr : ties k ## k_rsv k.
+
+  (* frames of the compile phase of an instance statement with positional connections *)
+  Lemma insts_frame_pos (F : cstate → cstate → Prop) : (∀ s, F s s) → (∀ a b c, F a b → F b c → F a c) →
+    (∀ l st st' rs, rmapS (c_cond k) st l = Ok (st', rs) → F st st') →
+    ∀ insts st st' cl, rmapS (inst_step k) st insts = Ok (st', cl) →
+    Forall (λ ic : string * conns, ∃ ps, ic.2 = Positional ps) insts → F st st'.
+  Proof.
+    intros Fr Ft Fl. induction insts as [|ic insts IH]; intros st st' cl H HF; simpl in H.
+    - injection H as <- <-. apply Fr.
+    - inversion HF as [|? ? (ps & E) HF']; subst.
+      apply rbind_ok in H as ([st1 c1] & H1 & H). apply rbind_ok in H as ([st2 c2] & H2 & H). simpl in *. injection H as <- <-.
+      unfold inst_step in H1. apply mbind_ok in H1 as ([st1' cc] & H1 & E1). injection E1 as <- <-.
+      rewrite E in H1. unfold c_conns in H1. apply mbind_ok in H1 as ([st1'' rs] & H1 & E1). injection E1 as <- <-.
+      eapply Ft; [by eapply Fl|by eapply IH].
+  Qed.
+
+  Definition item_den_ok (it : item) : Prop :=
+    match it with
+    | IInput ns => ∀ n, n ∈ ns → n ∈ k_rsv k ∧ n ∉ DD
+    | IAssign l => Forall (λ a : string * cond, drv_ok k (a.1, DAssign a.2)) l
+    | IInst mn insts => ∃ t, prim_of_name mn = Some t ∧ t ∈ gate_types ∧ Forall (prim_guard k t) insts
+    | _ => True end.
+  Lemma prim_drv_eq mn t ic : prim_of_name mn = Some t → inst_drivers mn ic = prim_drv t ic.
+  Proof. intros E. unfold inst_drivers, prim_drv. rewrite E. done. Qed.
+
+  Lemma c_item_rinv st it st' P : c_item k st it = Ok st' → rinv k P (r_g st) (r_ge st) → item_den_ok it →
+    NoDup (P.*1 ++ (item_drivers it).*1) → (list_to_set P.*1 : gset string) ⊆ DD →
+    rinv k (P ++ item_drivers it) (r_g st') (r_ge st').
+  Proof.
+    destruct it as [ns|ns|ns|mn insts|l]; simpl; intros H Hi Hok Hnd HDD.
+    - apply mbind_ok in H as (g & H1 & H). injection H as <-. simpl. rewrite app_nil_r.
+      eapply inputs_rinv; [done|exact H1|exact Hi|]. intros n Hn. destruct (Hok n Hn) as [? Hd]. split; [done|]. intros Hin. apply Hd, HDD. by apply elem_of_list_to_set.
+    - injection H as <-. by rewrite app_nil_r.
+    - injection H as <-. by rewrite app_nil_r.
+    - destruct Hok as (t & Ep & Ht & HG). rewrite Ep in H. fold (inst_step k) in H.
+      apply mbind_ok in H as ([stc cl] & H1 & H). cbn [fst snd] in H. apply mbind_ok in H as (g & H2 & H). injection H as <-. simpl.
+      assert (Hpos : Forall (λ ic : string * conns, ∃ n ins, ic.2 = Positional (cid n :: ins)) insts).
+      { eapply Forall_impl; [exact HG|]. intros ic (n & ins & E & _). eauto. }
+      assert (Hpos' : Forall (λ ic : string * conns, ∃ ps, ic.2 = Positional ps) insts).
+      { eapply Forall_impl; [exact Hpos|]. intros ic (n & ins & E). eauto. }
+      pose proof Hi as [G T U Eq N].
+      destruct (insts_compile_prim k insts _ _ _ H1 T Hpos) as [Ss Fc]. simpl in *.
+      destruct (insts_frame_pos (frg k) (frg_refl k) (frg_trans k) (frg_list k) _ _ _ _ H1 Hpos') as [_ Gc]. specialize (Gc G).
+      pose proof (insts_frame_pos (fr2 k) (fr2_refl k) (fr2_trans k) (fr2_list k) _ _ _ _ H1 Hpos') as F2.
+      assert (Hic : rinv k P stc.1 stc.2).
+      { eapply rinv_refine; [exact Hi|by apply refines_sub|by destruct stc|by eapply ties_mono|].
+        intros n Hn Hp Hu. by eapply (fr2_undef k (r_g st, r_ge st) stc). }
+      assert (Hd : insts ≫= inst_drivers mn = insts ≫= prim_drv t).
+      { clear -Ep. induction insts as [|ic insts IH]; [done|]. cbn. rewrite IH. by rewrite (prim_drv_eq mn t ic Ep). }
+      rewrite Hd in Hnd |- *. eapply (prims_rinv k Htr t cl insts stc.1 g stc.2 P); done.
+    - apply mbind_ok in H as (r & H1 & H). injection H as <-. simpl.
+      assert (Hl1 : ((λ p : string * cond, (p.1, DAssign p.2)) <$> l).*1 = l.*1).
+      { clear. induction l as [|a l IH]; [done|]. rewrite !fmap_cons. f_equal. exact IH. }
+      rewrite Hl1 in Hnd. eapply (assigns_rinv k Htr l (r_g st, r_ge st) r P); [exact H1|exact Hi|exact Hok|exact Hnd].
+  Qed.
+
+  Lemma items_rinv items : ∀ st st' P, rfold (c_item k) st items = Ok st' → rinv k P (r_g st) (r_ge st) →
+    Forall item_den_ok items → NoDup (P.*1 ++ (items ≫= item_drivers).*1) →
+    (list_to_set (P.*1 ++ (items ≫= item_drivers).*1) : gset string) ⊆ DD →
+    rinv k (P ++ (items ≫= item_drivers)) (r_g st') (r_ge st').
+  Proof.
+    induction items as [|it items IH]; intros st st' P H Hi HF Hnd HDD; simpl in H.
+    - injection H as <-. simpl. by rewrite app_nil_r.
+    - inversion HF as [|? ? Hok HF']; subst. apply rbind_ok in H as (st1 & H1 & H2).
+      cbn [mbind list_bind] in Hnd, HDD |- *. fold (mbind (M:=list) item_drivers) in Hnd, HDD |- *.
+      rewrite fmap_app in Hnd, HDD. rewrite app_assoc in Hnd.
+      assert (Hi1 : rinv k (P ++ item_drivers it) (r_g st1) (r_ge st1)).
+      { eapply c_item_rinv; [exact H1|exact Hi|exact Hok| |].
+        - by apply NoDup_app in Hnd as (? & _ & _).
+        - set_solver. }
+      specialize (IH st1 st' _ H2 Hi1 HF'). rewrite <- app_assoc in IH. apply IH.
+      + rewrite fmap_app. done.
+      + rewrite fmap_app. set_solver.
+  Qed.
+End items.
